@@ -7,7 +7,9 @@ using namespace vr;
 extern "C" void harness_c37_cse()
 {
     Gen g;
-    g.leaves = {L_X, L_Y, L_NUM, L_SYMNUM};
+    g.leaves = {L_X, L_Y, L_NUM};
+    if (verif_param("symnum", 1)) // symbolic integer leaves (their hashes are symbolic: the thorough tier only)
+        g.leaves.push_back(L_SYMNUM);
     g.nums = {{2, 1}, {-1, 2}, {3, 1}};
     g.unary = {O_NEG, O_POWI, O_SIN, O_EXP, O_SQRT};
     g.binary = {O_ADD, O_SUB, O_MUL, O_DIV};
